@@ -413,9 +413,14 @@ Definition client_request (U : universe) (d : descriptor) (args : list val) (kw 
 Definition msg_type_name (U : universe) (d : descriptor) (m : msg) : text :=
   match m with MWrap _ => md_name d | MType t => ty_name U t end.
 
+(** '{tns}name': the method_request_string a wire protocol derives from the request document *)
+Definition qname (tns key : text) : text := [123] ++ tns ++ [125] ++ key.
+
 Section Wire.
   (** what arrives when a message value is serialised and parsed back by protocol p *)
   Variable xfer : proto -> msg -> rmsg -> out rmsg.
+  (** the application's target namespace *)
+  Variable tns : text.
 
   (** deserialize(): HierDictDocument looks the body up under the TYPE name of the in-message *)
   Definition srv_in_object (U : universe) (p : proto) (d : descriptor) (r : rmsg) : out inobj :=
@@ -515,7 +520,11 @@ Section Wire.
   Definition wire_call (U : universe) (p : proto) (ms : list descriptor) (key : text) (hs : list val)
       (f : ufun) (args : list val) (kwargs : list (text * val)) : outcome * list event :=
     match find_method ms key with
-    | None => (Raised (resource_not_found key), [])
+    | None =>
+        (* ServerBase.generate_contexts catches the Fault of the dispatch and fires the event;
+           the error response is then serialised *)
+        (Raised (resource_not_found (qname tns key)),
+         [EvFire MethodExceptionObject; EvFire MethodExceptionDocument; EvFire MethodExceptionString])
     | Some d =>
         match (do r <- client_request U d args kwargs; srv_in_object U p d r) with
         | Ok io =>
